@@ -49,6 +49,10 @@ def expectations(patch):
 
 def run_one(patch, tier):
     exps = expectations(patch)
+    with open(patch, errors='replace') as f:
+        m = re.search(r'^#\s*tier:\s*(\w+)', f.read(2000), re.M)
+    if m:
+        tier = m.group(1)         # a change that only the thorough corpus contains a witness for
     if not exps:
         return patch, [('?', False, 'no "# expects:" header')]
     d = tempfile.mkdtemp(prefix='svmut.', dir=os.environ.get('SV_SCRATCH', '/tmp'))
